@@ -318,7 +318,7 @@ def run_check(pid, tier):
         nviol += 1
         rp = write_replay(rdir, pid, job, confirmed, cnt)
         out_lines.append("VIOLATION property=%s replay=%s" % (pid, rp))
-        log("  violation: job=%s op=%s args=%s msg=%s (count %d)" % (job["name"], confirmed["op"], confirmed["args"], confirmed["msg"], cnt))
+        log("  violation: job=%s op=%s args=%s msg=%s (count %d)" % (job["name"], confirmed["op"], confirmed["args"][:300], confirmed["msg"][:400], cnt))
     for c in res.crashes:
         job = c["job"]
         st, so, se = replay_case(exes[job["name"]], job, c["case"])
@@ -339,7 +339,7 @@ def run_check(pid, tier):
         log("  crash: job=%s case=%s" % (job["name"], c["case"]))
     for fid in sorted(known_hit):
         f, cnt, v = known_hit[fid]
-        print("KNOWN-FINDING: property=%s %s -- %s (cases hit: %d, e.g. op=%s args=%s)" % (pid, fid, f["what"], cnt, v["op"], v["args"]))
+        print("KNOWN-FINDING: property=%s %s -- %s (cases hit: %d, e.g. op=%s args=%s)" % (pid, fid, f["what"], cnt, v["op"], v["args"][:200]))
     # findings listed as open that were NOT hit are reported on stderr (they may be outside this tier's bounds)
     for f in findings["findings"]:
         if f["property"] == pid and f["id"] not in known_hit:
